@@ -25,12 +25,16 @@ func reqFor(id []byte, size int, fill byte) []byte {
 		}
 		as = []wattr{{typ: 0x8022, val: v, pad: make([]byte, pad4(l))}}
 	}
-	return wire(0x0001, id, as)
+	// the client writes whatever message it is given: requests mostly, but the type must not matter
+	return wire([]uint16{0x0001, 0x0001, 0x0003, 0x0011, 0x0101, 0x0004}[int(fill)%6], id, as)
 }
 
+// a datagram carrying this transaction id: success and error responses, but also indications and requests — the
+// client matches on the transaction id alone
 func respFor(id []byte, n int) []byte {
 	v := []byte{0, 1, 0x12, 0x34, 127, 0, 0, byte(n)}
-	return wire(0x0101, id, []wattr{{typ: 0x0020, val: v}})
+	typ := []uint16{0x0101, 0x0111, 0x0011, 0x0001, 0x0101, 0x0113, 0x0104}[n%7]
+	return wire(typ, id, []wattr{{typ: 0x0020, val: v}})
 }
 
 // n = exhaustive depth
